@@ -6,6 +6,7 @@ export GOFLAGS=-mod=mod GOPROXY=off
 mkdir -p bin build evidence replays
 (cd tools/gofacts && go build -o ../../bin/gofacts .)
 ./bin/gofacts -repo "${VERIF_REPO:-/repo}" -out lean/HsVerif/HsVerif/Gen -facts build/facts.json
+python3 tools/mkmain.py
 (cd lean/HsVerif && lake build HsVerif hsmodel)
 python3 - <<'PY'
 import sys; sys.path.insert(0, '.')
